@@ -167,6 +167,33 @@ def abortLine (toks : List String) : String :=
     | _, _, _ => "bad-op"
   | _ => "bad-op"
 
+/-- a download whose client falls silent after ACK 0: the retransmission interval is the acknowledged timeout,
+and DATA 1 is transmitted once plus once per failed attempt that leaves budget: `MAX_RETRIES` times in all -/
+def timingLine (toks : List String) : String :=
+  match toks with
+  | ["timing", rootH, flags, fsS, dg] =>
+    match bytesOfHex rootH, bytesOfHex dg with
+    | some root, some dgram =>
+      let fl := parseFlags flags
+      let cfg := mkCfg root fl
+      match parseFs root fl fsS with
+      | none => "bad-op"
+      | some fs =>
+        let r := handleDatagram cfg fs Gen.defaultBlockSize dgram
+        match r.worker, r.reply with
+        | some w, some (_, .oack _) =>
+          match fs.stat w.path with
+          | some (.file content) =>
+            let sc : SCfg := { b := w.opts.blockSize, w := w.opts.windowSize, timeout := w.opts.timeoutS * 1000, rep := 1 }
+            let evs : List (SEv × Nat) := (SEv.ack 0, 0) :: List.replicate 12 (SEv.fail, sc.timeout)
+            let run := sRun sc content true evs
+            let sends := (run.1.filter fun g => g.any fun p => match p with | .data 1 _ => true | _ => false).length
+            s!"first=oack interval={w.opts.timeoutS} transmissions={sends}"
+          | _ => "first=other"
+        | _, _ => "first=other"
+    | _, _ => "bad-op"
+  | _ => "bad-op"
+
 /-- a hostile batch followed by a probe: by `c05_probe_independent` the batch does not enter the answer -/
 def stormLine (toks : List String) : String :=
   match toks with
